@@ -192,10 +192,15 @@ func checkWalk(c WalkCase) (v ev.Verdict) {
 			pending = c.Messages[next]
 		}
 		allowed := sm.RefStepTok(c.Spec, cur.NodeName, map[string]interface{}(cur.Bs), pending, sm.TokenFrom(s), sm.ErrorTextFrom(s))
-		anyErr := false
+		anyErr, errConsumes, errKeeps := false, false, false
 		for _, al := range allowed {
 			if al.Err {
 				anyErr = true
+				if al.Consumed {
+					errConsumes = true
+				} else {
+					errKeeps = true
+				}
 			}
 		}
 		got := sm.Observe(s, nil, pending)
@@ -206,6 +211,19 @@ func checkWalk(c WalkCase) (v ev.Verdict) {
 			}
 			// an error from the step becomes a transition to the error node
 			v.Class("error-transition")
+			// a step that fails while trying message branches has still
+			// consumed the message; one that fails before that has not
+			if errConsumes && !errKeeps && s.Consumed == nil {
+				v.Failf("stride %d at %q: trying the message branches failed (%s) and the pending message was not consumed", i, cur.NodeName, allowed[0].Route)
+				return
+			}
+			if errKeeps && !errConsumes && s.Consumed != nil {
+				v.Failf("stride %d at %q: the step failed before any message branching (%s) and yet a message was consumed", i, cur.NodeName, allowed[0].Route)
+				return
+			}
+			if errConsumes {
+				v.Class("error-transition-consumed")
+			}
 			if cur.NodeName == "error" {
 				if s.To != nil {
 					v.Failf("stride %d: a failing step at the error node must stay put, went to %s", i, canonState(s.To))
